@@ -231,6 +231,9 @@ var FieldFilterKind = map[string]string{
 	"trace_action_call_type": "calltype",
 }
 
+// GenFilters adds 0-3 filters on selected inputs / block fields of d.
+func GenFilters(t *rapid.T, d *refmodel.Decl, p *Pool) { genFilters(t, d, p) }
+
 func genFilters(t *rapid.T, d *refmodel.Decl, p *Pool) {
 	n := rapid.IntRange(0, 3).Draw(t, "nfilters")
 	if n == 0 {
